@@ -34,7 +34,7 @@ int main(int argc, char **argv)
 	R.bound = "family=" + fam + " cells=" + str(S.size());
 	R.max_samples = 3;
 	std::set<uint64_t> seen;
-	uint64_t runs = 0, lines = 0;
+	uint64_t runs = 0, lines = 0, mycells = 0;
 	for (size_t si = 0; si < S.size(); si++)
 	{
 		bool mine = R.mine();
@@ -42,6 +42,7 @@ int main(int argc, char **argv)
 		if (R.out_of_time()) break;
 		printf("{\"t\":\"at\",\"case\":\"%s\"}\n", jesc(S[si].id).c_str());
 		fflush(stdout);
+		mycells++;
 		CellP c;
 		try { c = S[si].make(); }
 		catch (std::exception &e) { printf("{\"t\":\"error\",\"what\":\"make %s: %s\"}\n", jesc(S[si].id).c_str(), jesc(e.what()).c_str()); continue; }
@@ -91,7 +92,7 @@ int main(int argc, char **argv)
 	}
 	R.counters["protocol_runs"] = runs;
 	R.counters["transcript_lines"] = lines;
-	R.counters["cells"] = S.size();
+	R.counters["cells"] = mycells;
 	R.finish();
 	return 0;
 }
